@@ -405,6 +405,29 @@ func (sc *c11Scenario) laws(s *simrt.Sim, add func(clause, fp, detail string)) {
 			add("value", "MonadIO-method-constructors", fmt.Sprintf("MonadIO.Just(41).Eval()=%v, MonadIO.New(..).Eval()=%v, Just(41).FlatMap(..).Eval()=%v, effect counter %d (want 41, n, 41+, 11)", v1, v2, v3, ran))
 		}
 	}
+	// the two setters called at the same time from two goroutines both take effect
+	{
+		hA, hB := fpgo.Handler.New(), fpgo.Handler.New()
+		tidA, tidB := sc.handlerTID(s, hA), sc.handlerTID(s, hB)
+		effTID, nextTID := -1, -1
+		mm := fpgo.MonadIONewGenerics(func() int { effTID = s.Self().ID; return 123 })
+		t1 := s.Go("setter-observe", func() {
+			sc.h.Do("setter-observe", "ObserveOn", nil, func() (interface{}, error) { mm.ObserveOn(hA); return nil, nil })
+		})
+		t2 := s.Go("setter-subscribe", func() {
+			sc.h.Do("setter-subscribe", "SubscribeOn", nil, func() (interface{}, error) { mm.SubscribeOn(hB); return nil, nil })
+		})
+		s.WaitUntilTimeout(func() bool { return t1.Done() && t2.Done() }, time.Minute)
+		got := false
+		mm.Subscribe(fpgo.Subscription[int]{OnNext: func(v int) { nextTID = s.Self().ID; got = v == 123 }})
+		if !s.WaitUntilTimeout(func() bool { return got }, 5*time.Minute) {
+			add("handler-routing", "setters-called-concurrently:no-delivery", "ObserveOn(hA) and SubscribeOn(hB) called from two goroutines at once, then Subscribe: OnNext was not called with the value")
+		} else if effTID != tidA || nextTID != tidB {
+			add("handler-routing", "setters-called-concurrently", fmt.Sprintf("ObserveOn(hA) and SubscribeOn(hB) called from two goroutines at once, then Subscribe: effect on T%d (want hA = T%d), OnNext on T%d (want hB = T%d)", effTID, tidA, nextTID, tidB))
+		}
+		hA.Close()
+		hB.Close()
+	}
 	// nil is a value like any other: Just(nil).FlatMap(f) is f(nil), and a nil produced in the middle of a chain
 	// flows into the next step (interface-typed and pointer-typed monads)
 	{
